@@ -368,15 +368,14 @@ Section Db.
     match lvl with O => nth_error r i | _ => None end.
 
   (* a column reference to an outer level at this level of the expression (not inside nested
-     subqueries): the Volcano builder cannot resolve it *)
+     subqueries, nor in the left operand of IN (subquery)): planning the subquery on its own fails *)
   Fixpoint own_outer (e : sx) : bool :=
     match e with
     | XCol l _ _ => negb (l =? 0)%nat
     | XLit _ => false
     | XArith _ a b | XCmp _ a b | XAnd a b | XOr a b => own_outer a || own_outer b
     | XNot a | XIsNull _ a => own_outer a
-    | XIn _ a _ => own_outer a
-    | XExists _ _ | XScalar _ => false
+    | XIn _ _ _ | XExists _ _ | XScalar _ => false
     end.
 
   Fixpoint has_sub (e : sx) : bool :=
